@@ -16,7 +16,7 @@ FN_DOMAIN = "c07.local"
 CUSTOM_DOMAIN = "custom.c07"
 
 # pattern kinds a host can be seeded with (what `plant` emits)
-PLANTS = ("neg", "sub", "add", "mul", "tt", "mul1", "add0", "split", "relu", "subrelu", "negneg")
+PLANTS = ("neg", "sub", "add", "mul", "tt", "mul1", "add0", "split", "relu", "subrelu", "negneg", "diamond")
 
 
 class Val:
@@ -164,6 +164,15 @@ class Scope:
             r = self.emit("Relu", [t[0]], [np.maximum(t[0].ex, 0)], planted=True)
             if rng.random() < 0.2:  # the intermediate gets a second use: the instance is no longer removable
                 self.emit("Neg", [t[0]], [-t[0].ex])
+        elif kind == "diamond":
+            a = self.pick()
+            b = self.pick(lambda v: v.shape == a.shape) or a
+            t = self.emit("Sub", [a, b], [a.ex - b.ex])
+            u = self.emit("Relu", [t[0]], [np.maximum(t[0].ex, 0)])
+            w = self.emit("Neg", [t[0]], [-t[0].ex])
+            r = self.emit("Add", [u[0], w[0]], [u[0].ex + w[0].ex], planted=True)
+            if rng.random() < 0.2:  # an intermediate gets a use outside: the instance is no longer removable
+                self.emit("Neg", [u[0]], [-u[0].ex])
         elif kind == "negneg":
             a = self.pick()
             t = self.emit("Neg", [a], [-a.ex])
@@ -355,10 +364,11 @@ def _function(ctx, main, n_plants):
 
 
 ROOT_OPS = {"neg": ("Neg",), "sub": ("Sub",), "add": ("Add",), "mul": ("Mul",), "tt": ("Transpose",), "mul1": ("Mul",), "add0": ("Add",),
-            "split": ("Split",), "relu": ("Relu",), "subrelu": ("Relu", "Sub"), "negneg": ("Neg",)}
+            "split": ("Split",), "relu": ("Relu",), "subrelu": ("Relu", "Sub"), "negneg": ("Neg",), "diamond": ("Add", "Sub")}
 
 
-def make_host(rng, plant, *, n_nodes=6, k_plants=2, subgraphs=True, functions=True, clash_name=None, custom_fn=False, nested_only=False):
+def make_host(rng, plant, *, n_nodes=6, k_plants=2, subgraphs=True, functions=True, clash_name=None, custom_fn=False, nested_only=False,
+              prior_overload=None):
     """-> (ModelProto, info) ; info = {"planted": k, "where": [...], "inputs": {name: shape|"bool"}}."""
     ctx = Ctx(rng, plant, clash_name)
     main = Scope(ctx, "main")
@@ -389,6 +399,21 @@ def make_host(rng, plant, *, n_nodes=6, k_plants=2, subgraphs=True, functions=Tr
         cv = Val(clash_name, np.array(3.0, dtype=np.float32), const=True)
         a = main.pick()
         main.emit("Mul", [a, cv], [a.ex * 3.0])
+    prior_fn = None
+    if prior_overload:
+        # the model already owns a function <fused domain>::<name> under overload "2" only (overload "1" was pruned earlier):
+        # a function extracted by as_function must get a FREE overload id and leave this one alone; its call is a graph output
+        a = main.pick()
+        b = main.pick(lambda v: v.shape == a.shape) or a
+        pv = Val(ctx.name("v"), np.asarray(a.ex * b.ex + 1.0))
+        main.nodes.append(helper.make_node(prior_overload, [a.name, b.name], [pv.name], name=ctx.name("n"), domain="c07.fused", overload="2"))
+        main.vals.append(pv)
+        one = numpy_helper.from_array(np.array(1.0, dtype=np.float32), "po_one_t")
+        prior_fn = helper.make_function("c07.fused", prior_overload, ["po_x", "po_y"], ["po_z"],
+                                        [helper.make_node("Mul", ["po_x", "po_y"], ["po_m"]),
+                                         helper.make_node("Constant", [], ["po_one"], value=one),
+                                         helper.make_node("Add", ["po_m", "po_one"], ["po_z"])],
+                                        [helper.make_opsetid("", OPSET)], overload="2")
     steps = ["p"] * k_plants + ["r"] * n_nodes
     if subgraphs:
         steps += ["cf"] * rng.choice([0, 1, 1, 2])
@@ -432,6 +457,9 @@ def make_host(rng, plant, *, n_nodes=6, k_plants=2, subgraphs=True, functions=Tr
     fns = list(ctx.functions)
     if fns:
         imports.append(helper.make_opsetid(FN_DOMAIN, 1))
+    if prior_fn is not None:
+        fns.append(prior_fn)
+        imports.append(helper.make_opsetid("c07.fused", 1))
     if custom_fn:  # the function a custom-domain replacement will call; no node uses it yet, the domain is not imported
         zt = numpy_helper.from_array(np.array(0.0, dtype=np.float32), "cz_t")  # body must not itself be an instance of Relu(x)
         fns.append(helper.make_function(CUSTOM_DOMAIN, "Relu", ["cx"], ["cy"],
